@@ -1,1 +1,41 @@
-fn main(){}
+//! vcheck: one subcommand per property. `vcheck <Cxx> --tier quick|thorough [--only <key>]`
+mod common;
+mod p_evo;
+mod p_values;
+
+use bridge::err::CountingAlloc;
+
+#[global_allocator]
+static ALLOC: CountingAlloc = CountingAlloc;
+
+fn main() {
+    let args: Vec<String> = std::env::args().collect();
+    if args.len() < 2 {
+        eprintln!("usage: vcheck <property> --tier quick|thorough [--only <key>]");
+        std::process::exit(2);
+    }
+    let prop = args[1].clone();
+    let tier = args.iter().position(|a| a == "--tier").map(|i| args[i + 1].clone()).unwrap_or_else(|| "quick".into());
+    let only = args.iter().position(|a| a == "--only").map(|i| args[i + 1].clone());
+    if tier == "thorough" && !universe::THOROUGH {
+        eprintln!("MACHINERY: thorough tier needs the binary built with --features thorough");
+        std::process::exit(2);
+    }
+    std::env::set_var("TZ", "UTC");
+    bridge::install_panic_hook();
+    let code = match prop.as_str() {
+        "C01" | "C04" | "C07" | "C08" | "C15" => p_values::run(&prop, &tier, only),
+        "list" => {
+            let u = common::load();
+            for e in &u.entries {
+                println!("{}\t{}", e.name, bridge::rt::ty_name(&e.ty));
+            }
+            0
+        }
+        other => {
+            eprintln!("MACHINERY: unknown property {other}");
+            2
+        }
+    };
+    std::process::exit(code);
+}
